@@ -173,12 +173,15 @@ PROPS = {
     },
     "C06": {
         "pins": ['utils.strip_punct', 'utils.hash_sha256'],
-        "contracts": ["a_common", "resolve"],
-        "functions": RESOLVE_FUNCS,
+        "contracts": ["a_common", "c18_helpers", "resolve"],
+        # the second half of share_iff_equal ('equal <=> same normalised volume, reporter, page, not placeholder') is C16's hash model:
+        # its obligations and the contract of corrected_reporter() (normalised = the guessed edition's name) are part of this check too
+        "functions": RESOLVE_FUNCS + ["models.ResourceCitation.corrected_reporter"],
+        "extra": [_c16_extra],
         "assumptions": [A_HASH, DEFAULT_RESOLVERS, CIT_WF,
                         "dict model: defaultdict(list) keyed by the abstract equality key of the resource; the key object stored is not modelled (values only)",
                         "'sub-sequence' is by input index: a list that contains the same object twice is two indices"],
-        "not_covered": ["second half of share_iff_equal ('equal <=> same normalised volume, reporter, page, not placeholder') is C16's clause"],
+        "not_covered": [],
     },
     "C07": {
         "pins": ['utils.strip_punct', 'utils.hash_sha256'],
